@@ -153,8 +153,9 @@ def lower(o):
             warnings.simplefilter("error")
             return apply_geometry_lowering(o)
     except Exception as ex:      # noqa: BLE001
-        dom = o.ufl_domain() if not hasattr(o, "ufl_operands") or o._ufl_is_terminal_ else o.ufl_operands[0].ufl_domain()
-        LOWERING_ERRORS.append({"quantity": str(o), "type": type(o).__name__,
+        from ufl.domain import extract_domains
+        dom = extract_domains(o)[0] if not isinstance(o, ufl.Form) else o.ufl_domains()[0]
+        LOWERING_ERRORS.append({"quantity": str(o)[:300], "type": type(o).__name__,
                                 "cell": dom.ufl_cell().cellname, "gdim": dom.geometric_dimension,
                                 "exception": f"{type(ex).__name__}: {ex}"[:500]})
         return None
@@ -278,6 +279,77 @@ def build_cases(tier):
     return cases
 
 
+
+# joint and one-at-a-time lowering build the same tree up to index names, so the normal forms coincide;
+# ring (bounded) is only a fallback for reordered sums, and a mismatch fails fast
+COMBINED_TACTIC = "norm_goal; first [ reflexivity | timeout 20 ring ]"
+
+
+def cell_quantities(t, g):
+    """names of the geometric quantity types lowered for a t-simplex in R^g (in this fixed order)"""
+    q = ["Jacobian", "JacobianInverse", "JacobianDeterminant", "SpatialCoordinate", "CellCoordinate", "CellVolume",
+         "Circumradius", "CellDiameter", "MinCellEdgeLength", "MaxCellEdgeLength"]
+    if g == t + 1:
+        q.append("CellNormal")
+    q += ["FacetArea", "FacetNormal"]
+    if t >= 2:
+        q += ["FacetJacobian", "FacetJacobianInverse", "FacetJacobianDeterminant"]
+    if t == 3:
+        q += ["MinFacetEdgeLength", "MaxFacetEdgeLength", "RidgeJacobian", "RidgeJacobianInverse",
+              "RidgeJacobianDeterminant"]
+    return q
+
+
+def build_combined(tier, seed):
+    """Context independence: several quantities of ONE domain lowered in ONE apply_geometry_lowering call
+    (one GeometryLoweringApplier, one memo cache, one DAG traversal), in different orders, as an expression
+    and inside a Form, must give component for component the value of the quantities lowered one at a time
+    (which the single-quantity cases tie to the vertices).  No hypothesis: proved for every environment."""
+    import itertools
+    import random
+    cases = []
+    for cell, t in CELLS:
+        for g in range(t, 4):
+            m = uflgen.mesh(cell, g)
+            cg = f"{cell[:3]}{g}"
+            atoms = []          # (quantity name, component, bare scalar expression, individually lowered scalar)
+            for qn in cell_quantities(t, g):
+                q = getattr(C, qn)(m)
+                lq = lower(q)
+                if lq is None:
+                    continue
+                for c in itertools.product(*[range(d) for d in q.ufl_shape]):
+                    atoms.append((qn, c, q[c] if c else q, lq[c] if c else lq))
+            orders = {"fwd": list(atoms), "rev": list(reversed(atoms))}
+            rng = random.Random(1000 * seed + 7 * t + g)
+            for k in range(2 if tier == "thorough" else 0):
+                sh = list(atoms)
+                rng.shuffle(sh)
+                orders[f"shuf{k}"] = sh
+            for on, lst in orders.items():
+                low = lower(ufl.as_vector([a[2] for a in lst]))
+                if low is None:
+                    continue
+                exp = ufl.as_vector([a[3] for a in lst])
+                cases.append(coqgen.Case(
+                    f"combo_{cg}_{on}", out=low, inp=exp, tactic=COMBINED_TACTIC,
+                    note={"q": "combined", "tdim": t, "gdim": g, "facet": 0, "ridge": 0, "order": on,
+                          "atoms": [[a[0], list(a[1])] for a in lst]}))
+            # Form / Integral level: one integrand that mentions every quantity, weighted by distinct literals
+            fat = [a for a in atoms if a[0] != "CellCoordinate"]      # preserved inside integrals
+            for mn, meas in (("ds", ufl.Measure("ds", domain=m)), ("dx", ufl.Measure("dx", domain=m))):
+                integrand = sum((k + 2) * a[2] for k, a in enumerate(fat))
+                lf = lower(integrand * meas)
+                if lf is None:
+                    continue
+                exp = sum((k + 2) * a[3] for k, a in enumerate(fat))
+                cases.append(coqgen.Case(
+                    f"form_{cg}_{mn}", out=lf.integrals()[0].integrand(), inp=exp, tactic=COMBINED_TACTIC,
+                    note={"q": "combined-form", "tdim": t, "gdim": g, "facet": 0, "ridge": 0, "measure": mn,
+                          "atoms": [[a[0], list(a[1])] for a in fat], "weights": [k + 2 for k in range(len(fat))]}))
+    return cases
+
+
 def hand_result(rel, tier):
     """Compile a hand-written file (its theorems do not depend on /repo).  check.py's ensure_core has
     already rebuilt it if it was stale; in the quick tier the output (Print Assumptions) of the last
@@ -302,7 +374,8 @@ def replay(run, data):
     if not w:
         print("replay file has no witness (no failing input had been found)")
         return 2
-    case = next(c for c in build_cases("thorough") if c.name == data["case"])
+    case = next(c for c in build_cases("thorough") + build_combined("thorough", int(data.get("seed", 0)))
+                if c.name == data["case"])
     got, exp, ok = C07_oracle.replay_witness(case, w)
     print(f"case {case.name}: lowered expression evaluates to {got}, the cell's {w['quantity']} is {exp}: "
           + ("AGREE" if ok else "DIFFER"))
@@ -314,7 +387,7 @@ def main(run):
         if ufl2coq.KIND_OF_GEOMETRY.get(n) != k:
             raise RuntimeError(f"terminal kind of {n} changed; coq/Props/C07_spec.v (interp) must be updated")
     del LOWERING_ERRORS[:]
-    cases = build_cases(run.tier)
+    cases = build_cases(run.tier) + build_combined(run.tier, run.seed)
     seen_err = set()
     for e in LOWERING_ERRORS:
         key = (e["type"], e["cell"], e["gdim"])
@@ -368,9 +441,14 @@ def main(run):
         if case.name in seen:
             continue
         seen.add(case.name)
-        w = C07_oracle.search(case, trials=30 if run.tier == "quick" else 300, seed=run.seed)
-        rep = {"broken_obligation": lemma, "case": case.name, "note": case.note, "coq_message": msg,
-               "spec": case.spec, "lowered_expr": str(case.out)[:3000],
+        trials = 30 if run.tier == "quick" else 300
+        if case.note["q"].startswith("combined"):
+            w = C07_oracle.search_combined(case, lemma, trials=trials, seed=run.seed)
+        else:
+            w = C07_oracle.search(case, trials=trials, seed=run.seed)
+        rep = {"broken_obligation": lemma, "case": case.name, "seed": run.seed,
+               "note": {k: v for k, v in case.note.items() if k not in ("atoms", "weights")}, "coq_message": msg,
+               "spec": case.spec or "the same quantities lowered one at a time", "lowered_expr": str(case.out)[:3000],
                "reproduce": "bin/check C07 --replay <this file>  (evaluates apply_geometry_lowering's output for this "
                             "quantity on the witness simplex, terminals read by the convention table of "
                             "coq/Props/C07_spec.v, and compares with numpy's value from the vertices)"}
